@@ -290,7 +290,7 @@ var c08SinkPrefixes = []struct {
 	{func() *Op { o := mkOp(kUnsafeString, ""); return &o }(), ""},
 }
 
-var c08SinkShapes = []string{"Print(r)", "Print(r, r)", "Printf(%v, r)", "Printf(%s|%s, r, r)", "Print(r) Print(r)", "Print(r, 1)"}
+var c08SinkShapes = []string{"Print(r)", "Print(r, r)", "Printf(%v, r)", "Printf(%s|%s, r, r)", "Print(r) Print(r)", "Print(r, 1)", "Print(r, \"\")", "Printf(%s%s., r, \"\")", "Print(r) UnsafeString(\"\") SafeString(.)", "Print(\"\", r)"}
 
 func c08Sink(r redact.RedactableString, asBytes bool, impl, pre, shape int) string {
 	var val interface{} = r
@@ -310,8 +310,17 @@ func c08Sink(r redact.RedactableString, asBytes bool, impl, pre, shape int) stri
 		body, want = []Op{mkPrintf("%s|%s", val, val)}, string(redact.Sprintf("%s|%s", val, val))
 	case 4:
 		body, want = []Op{mkPrint(val), mkPrint(val)}, string(redact.Sprint(val))+string(redact.Sprint(val))
-	default:
+	case 5:
 		body, want = []Op{mkPrint(val, 1)}, string(redact.Sprint(val, 1))
+	case 6:
+		// an operand that prints nothing right after the redactable: nothing may be taken back from r
+		body, want = []Op{mkPrint(val, "")}, string(r) // no space: Sprint separates operands only when NEITHER is a string
+	case 7:
+		body, want = []Op{mkPrintf("%s%s.", val, "")}, string(r)+"."
+	case 8:
+		body, want = []Op{mkPrint(val), mkOp(kUnsafeString, ""), mkOp(kSafeString, ".")}, string(r)+"."
+	default:
+		body, want = []Op{mkPrint("", val)}, string(r)
 	}
 	var ops []*Op
 	if p := c08SinkPrefixes[pre]; p.Op != nil {
